@@ -7,6 +7,7 @@
 package sim
 
 import (
+	"hash/fnv"
 	"reflect"
 	"sort"
 	"time"
@@ -42,10 +43,32 @@ func NewDetInformer() *DetInformer {
 // sortedIndexer returns lists in key order so that runs are reproducible.
 type sortedIndexer struct{ cache.Indexer }
 
+// ListSalt permutes the order in which the caches return lists: 0 = key order,
+// otherwise the order of fnv(key, salt). The real indexer returns map order, so
+// every order is legitimate; a run fixes one so that it stays reproducible.
+// Package-level like the clocks: one simulation per process at a time.
+var ListSalt uint64
+
+func saltedKey(k string) uint64 {
+	h := fnv.New64a()
+	var b [8]byte
+	for i := 0; i < 8; i++ {
+		b[i] = byte(ListSalt >> (8 * i))
+	}
+	h.Write(b[:])
+	h.Write([]byte(k))
+	return h.Sum64()
+}
+
 func sortObjs(objs []interface{}) {
 	sort.Slice(objs, func(i, j int) bool {
 		ki, _ := cache.MetaNamespaceKeyFunc(objs[i])
 		kj, _ := cache.MetaNamespaceKeyFunc(objs[j])
+		if ListSalt != 0 {
+			if hi, hj := saltedKey(ki), saltedKey(kj); hi != hj {
+				return hi < hj
+			}
+		}
 		return ki < kj
 	})
 }
@@ -67,7 +90,7 @@ func (d *DetInformer) AddEventHandler(h cache.ResourceEventHandler) {
 func (d *DetInformer) AddEventHandlerWithResyncPeriod(h cache.ResourceEventHandler, _ time.Duration) {
 	d.AddEventHandler(h)
 }
-func (d *DetInformer) GetStore() cache.Store                               { return d.indexer }
+func (d *DetInformer) GetStore() cache.Store                                { return d.indexer }
 func (d *DetInformer) GetController() cache.Controller                      { return nil }
 func (d *DetInformer) Run(stopCh <-chan struct{})                           {}
 func (d *DetInformer) HasSynced() bool                                      { return true }
